@@ -718,14 +718,21 @@ def probe_fixes(cexe, mexe):
     """which of the proposed fixes (notes/fix_C08_*.diff) does the code under test contain?  A defect counts as
     fixed when its witness does not trip the sanitizer AND the implementation behaves exactly like the mirror
     with that fix switched on; otherwise the unchanged control flow is assumed (and compared)."""
-    mask = 0
+    # notes/fix_C07_4.diff (ZRLE raw_buffer sized by the worst case): changes the scratch size every ZRLE witness sees
+    script = "\n".join(C07.PROBE_ZBOUND) + "\n"
+    rc1, cout, cerr = vlib.run_driver([cexe, "20"], script, timeout=120)
+    rc2, mout, merr = vlib.run_driver([mexe, "dec"], script, timeout=120, unlimited_stack=True)
+    il = vlib.split_cases(cout)
+    ml = vlib.split_cases(mout)
+    zb = 4096 if (il and ml and [l for l in il[0][1] if not l.startswith("verdict ")] == ml[0][1] and "end ok" in ml[0][1]) else 0
+    mask = zb
     cdir = os.path.join(vlib.VERIF, "corpus", PID)
     for fn, bit in WITNESSES:
         path = os.path.join(cdir, fn)
         if not os.path.exists(path):
             continue
         lines = [l for l in open(path).read().split("\n") if l.strip() and not l.startswith("#")]
-        tok = with_fixed(lines, 1 << bit)
+        tok = with_fixed(lines, (1 << bit) | zb)
         rc1, cout, cerr = vlib.run_driver([cexe, "20"], "\n".join(tok) + "\n", timeout=120)
         il = vlib.split_cases(cout)
         il = il[0][1] if il else ["verdict missing"]
